@@ -10,6 +10,7 @@ ValueError) and must then change nothing.  Oracle: an ordered list of
 import copy
 import gc
 import io
+import re
 
 from simkit.core import EventLog, Outcome, Violation, stream_rng, stable_hash
 
@@ -46,13 +47,18 @@ PROBES = ["remove_head_then_insert_before_tail", "reorder_the_only_element",
 
 NAMES = [["Package", "package", "PACKAGE"], ["Version", "version", "VERSION"],
          ["Depends", "depends", "DePeNdS"], ["X-A", "x-a", "X-a"], ["Zeta", "zeta", "ZETA"],
-         ["alpha", "Alpha", "ALPHA"]]
+         ["alpha", "Alpha", "ALPHA"],
+         # equal under lower(), and NOT equal to the next family (casefold would merge them)
+         ["Stra\u00dfe", "STRA\u00dfE", "stra\u00dfe"], ["Strasse", "STRASSE", "strasse"]]
 VALUES = ["1", "foo", "1.0-1", "a, b (>= 1)", "", "x y", "multi\n line2", "\n only\n cont",
           "ünï", "v#1", "long value with several words", "100% %s {0} \\1",
           "big " + "0123456789abcdef" * 600,          # beyond one I/O buffer
           # characters str.splitlines() breaks at are ordinary characters of a value
-          "form\x0cfeed", "nel\x85x", "ls\u2028x y", "multi\n li\x1cne\u2029 2"]
-BADVALUES = ["ends\n", "blank\n\n line", "nospace\nline2"]
+          "form\x0cfeed", "nel\x85x", "ls\u2028x y", "multi\n li\x1cne\u2029 2",
+          # continuation lines that start with white space other than blank or tab
+          "multi\n\u00a0nbsp line", "m\n\u2003em\n\x1cfs"]
+BADVALUES = ["ends\n", "blank\n\n line", "nospace\nline2",
+             "cr\rline2", "cr\r\rx", "x\rPackage: evil"]     # a bare CR is a line break on re-parse
 SORTKEYS = {"len": lambda x: (len(x), x.lower()),
             "rev": lambda x: x.lower()[::-1],
             "neg": lambda x: tuple(-ord(c) for c in x.lower()),
@@ -164,7 +170,8 @@ class M(object):
 def valid_value(v):
     if v.endswith("\n"):
         return False
-    for line in v.split("\n")[1:]:
+    # a bare carriage return is a line break for the parser, like "\n" and "\r\n"
+    for line in re.split(r"\r\n|\r|\n", v)[1:]:
         if not line or not line[0].isspace():
             return False
     return True
@@ -216,7 +223,8 @@ def _check_handle(d, m, hi, si, op, quiet=False):
             where.update(got=bfd.getvalue()[:300], want=dump[:300])
             raise Violation("dump-differs", op, where)
     for lower, sp, v in m.rows:
-        for variant in ((sp,) if quiet else (sp, lower, lower.upper())):
+        for variant in ((sp,) if quiet else
+                        [v_ for v_ in (sp, lower, lower.upper()) if v_.lower() == lower]):
             try:
                 got = d[variant]
             except Exception as e:   # pylint: disable=broad-except
